@@ -59,7 +59,7 @@ func runC10(c *core.Ctx) {
 			}
 			nAcc++
 			c.Analysed(core.FuncName(f))
-			base := core.Path(fa.X)
+			base := core.Path(core.FieldOwner(fa))
 			ls := li.At[ins]
 			key := fmt.Sprintf("%s/%s", core.FuncName(f), kind)
 			c.Check(ls.Has(base+".subscribeM", "W"), "R1", key, p.InstrPos(ins), "under "+ls.String(), fmt.Sprintf("%s of the subscriber list without %s.subscribeM held (held=%s): races with concurrent Subscribe/Unsubscribe/Publish", kind, base, ls))
